@@ -21,6 +21,16 @@ Theorem C10_add_overwrites_only_blank : forall ls : list str,
   ins_index ls < length ls /\ is_blank_line (nth (ins_index ls) ls []) = true.
 Proof. exact add_overwrites_only_a_blank_line. Qed.
 
+(* WHAT is removed from the source, for every page: pre = the lines above the note, none mentioning its ZID (the
+   known finding is exactly the failure of this hypothesis); l :: blk = as many lines as the note's body has, starting
+   with the line that carries the ZID - the note's own lines; post = the rest. Exactly l :: blk is removed. *)
+Theorem C10_exactly_the_notes_lines_are_removed : forall zid body pre l blk post,
+  forallb (fun x => negb (contains (S " " ++ zid ++ S " ") x)) pre = true ->
+  contains (S " " ++ zid ++ S " ") l = true ->
+  length (l :: blk) = length (split_on nlc body) ->
+  del_lines zid body (pre ++ (l :: blk) ++ post) = Some (pre ++ post).
+Proof. exact delete_exactly_the_notes_lines. Qed.
+
 (* WHERE the note goes, for every page: split the lines into paragraphs at blank lines; with P the LAST paragraph that
    holds an item (all its lines non-blank, one of them starts an item), b the blank line that ends it and B the rest
    of the page (no item starts there: headers, comments, blank lines), the note is written directly below P, the
@@ -55,6 +65,7 @@ Proof. vm_compute. reflexivity. Qed.
 Print Assumptions C10_delete_partial.
 Print Assumptions C10_add_partial.
 Print Assumptions C10_add_overwrites_only_blank.
+Print Assumptions C10_exactly_the_notes_lines_are_removed.
 Print Assumptions C10_added_below_the_last_item_paragraph.
 Print Assumptions C10_added_at_the_end_of_a_page_without_items.
 Print Assumptions C10_no_trailing_newline_refuted.
